@@ -1,10 +1,61 @@
 /-
   EG.Driver.Raw — model side of the `raw.*` correspondence streams (harness/src/m_raw.rs).
+
+  raw.store <bits> <order 0|1> <bytes> <index> <value>
+      -> `<ok|err> <bytes after> <load of every index 0 ..= pixelCount+1 after the store>`
+  raw.load  <bits> <order> <bytes> <index>            -> `<value|none>`
+  raw.iter  <bits> <order> <bytes> <script>           script item: -1 = next(), k >= 0 = nth(k)
+      -> `<lo>,<hi>,<item|none>;...` (size_hint before each step, then its result)
+         ` end=<lo>,<hi> rest=<items a for loop still sees>`
 -/
 import EG.Driver.Util
+import EG.Model.Raw
 namespace EG.Driver
-open EG
+open EG EG.Raw
 
-def handleRaw (_stream : String) (_t : Toks) : Option String := none
+def orderOf : Nat → Order
+  | 0 => .le
+  | _ => .be
+
+def fmtOptNat : Option Nat → String
+  | some v => toString v
+  | none => "none"
+
+def fmtHint (h : Nat × Option Nat) : String := s!"{h.1},{fmtOptNat h.2}"
+
+def fmtLoads (bits : Nat) (o : Order) (buf : List Nat) : String :=
+  joinOr "," ((List.range (pixelCount bits buf.length + 2)).map (fun i => fmtOptNat (load bits o buf i)))
+
+def runScript : List Int → Iter → List String → List String × Iter
+  | [], it, acc => (acc.reverse, it)
+  | k :: ks, it, acc =>
+    let h := it.sizeHint
+    let (r, it') := if k < 0 then it.next else it.nth k.toNat
+    runScript ks it' (s!"{fmtHint h},{fmtOptNat r}" :: acc)
+
+def handleRaw (stream : String) (t : Toks) : Option String :=
+  match stream with
+  | "raw.store" =>
+    let (bits, t) := t.nat
+    let (o, t) := t.nat
+    let (buf, t) := t.natList
+    let (i, t) := t.nat
+    let (v, _) := t.nat
+    let (ok, buf') := store bits (orderOf o) (rawNew bits v) buf i
+    some s!"{if ok then "ok" else "err"} {fmtNats buf'} {fmtLoads bits (orderOf o) buf'}"
+  | "raw.load" =>
+    let (bits, t) := t.nat
+    let (o, t) := t.nat
+    let (buf, t) := t.natList
+    let (i, _) := t.nat
+    some (fmtOptNat (load bits (orderOf o) buf i))
+  | "raw.iter" =>
+    let (bits, t) := t.nat
+    let (o, t) := t.nat
+    let (buf, t) := t.natList
+    let (script, _) := t.intList
+    let (steps, it) := runScript script (Iter.new bits (orderOf o) buf) []
+    some s!"{joinOr ";" steps} end={fmtHint it.sizeHint} rest={fmtNats it.toList}"
+  | _ => none
 
 end EG.Driver
